@@ -2,9 +2,14 @@ package main
 
 import (
 	"bytes"
+	"encoding/json"
 	"fmt"
+	"io"
 	"os"
 	"path/filepath"
+	"sort"
+	"syscall"
+	"time"
 
 	"github.com/tsenart/vegeta/v12/internal/zzverif/vgen"
 	vegeta "github.com/tsenart/vegeta/v12/lib"
@@ -31,4 +36,54 @@ func readResults(path, codec string, limit int) ([]vegeta.Result, error) {
 		return got, fmt.Errorf("decoding %s as %s: %v after %d records", filepath.Base(path), codec, derr, len(got))
 	}
 	return got, nil
+}
+
+// slowPipe makes a named pipe dir/name whose writer delivers data up to each of the given
+// offsets and then pauses (what a live `vegeta attack | vegeta report -every ...` looks like
+// to the reading command); the writer closes the pipe at the end.
+func slowPipe(dir, name string, data []byte, pauseAt []int, pause time.Duration) (string, error) {
+	fifo := filepath.Join(dir, name)
+	if err := syscall.Mkfifo(fifo, 0o600); err != nil {
+		return "", fmt.Errorf("mkfifo: %v", err)
+	}
+	cuts := append([]int(nil), pauseAt...)
+	sort.Ints(cuts)
+	go func() {
+		w, err := os.OpenFile(fifo, os.O_WRONLY, 0)
+		if err != nil {
+			return
+		}
+		defer w.Close()
+		off := 0
+		for _, c := range append(cuts, len(data)) {
+			if c > len(data) {
+				c = len(data)
+			}
+			if c > off {
+				if _, err := w.Write(data[off:c]); err != nil {
+					return
+				}
+				off = c
+			}
+			if c < len(data) {
+				time.Sleep(pause)
+			}
+		}
+	}()
+	return fifo, nil
+}
+
+// lastJSONDoc returns the last of the concatenated JSON documents in b and their number
+// (with -every the report command writes every periodic report into the same output).
+func lastJSONDoc(b []byte) (last []byte, n int, err error) {
+	dec := json.NewDecoder(bytes.NewReader(b))
+	for {
+		var raw json.RawMessage
+		if err := dec.Decode(&raw); err == io.EOF {
+			return last, n, nil
+		} else if err != nil {
+			return last, n, err
+		}
+		last, n = raw, n+1
+	}
 }
